@@ -94,6 +94,9 @@ class Esc:
                 t = P.ann_class(m, arg.annotation)
                 if t:
                     env[arg.arg] = t
+                et_ = P.ann_elem_class(m, arg.annotation)
+                if et_:
+                    elem[arg.arg] = et_         # `entries: list[StateVecEntry]` / `Iterable[StateVecEntry]`: the loop variable over it is typed
                 txt = ast.unparse(arg.annotation)
                 if txt.endswith('FormalName') and arg.arg not in kinds:
                     kinds[arg.arg] = 'FormalName'
